@@ -48,8 +48,8 @@ pub fn plan(tier: Tier, n_quick: usize, n_thorough: usize, k_quick: usize, k_tho
         Tier::Thorough => {
             let mut spaces = s_char(n_thorough);
             spaces.push(s_tok(k_thorough));
-            spaces.push(s_props(7));
-            spaces.push(s_dir(6));
+            spaces.push(s_props(6));
+            spaces.push(s_dir(5));
             SweepPlan { spaces, suite: true, suite_neighbourhood: true, gen: vec![(4, 2), (5, 1)] }
         }
     }
